@@ -130,7 +130,7 @@ func finish(eng *Engine, ev *Evidence, prop, tier string, seed int, results []*H
 	validated := 0
 	byPkg := map[string][]*pendingReplay{}
 	for _, p := range pend {
-		if p.h.NoReplay {
+		if p.h.NoReplay || (p.kind != "witness" && engineLevel(p.v.ID)) {
 			continue
 		}
 		p.rf = rp.mkReplay(p.h, p.v, nil)
@@ -196,7 +196,7 @@ func finish(eng *Engine, ev *Evidence, prop, tier string, seed int, results []*H
 			}
 		case "new", "known":
 			ok := false
-			if p.h.NoReplay {
+			if p.h.NoReplay || engineLevel(p.v.ID) {
 				ok = true
 				p.rf = rp.mkReplay(p.h, p.v, nil)
 				p.path, _ = rp.writeFile(p.rf, replayDir)
@@ -343,4 +343,16 @@ func assumptionsFor(prop string, eng *Engine) []string {
 		}
 	}
 	return a
+}
+
+// engineLevel: lock-discipline violations are statements about an access trace (no schedule is
+// executed natively), so they are reported from the engine without a native replay even in harnesses
+// whose other assertions are replayed.
+func engineLevel(id string) bool {
+	for _, p := range []string{"read-without-lock:", "write-without-lock:", "write-under-read-lock:", "write-to-package-variable:"} {
+		if strings.HasPrefix(id, p) {
+			return true
+		}
+	}
+	return false
 }
